@@ -87,6 +87,9 @@ func c03Lookup(in sx.V, n int) (*c03Type, sx.V) {
 		return nil, sx.L(sx.A("harness-error"), sx.A("shape"))
 	}
 	ct := c03Types[string(in.List[0].Bytes)]
+	if ct == nil {
+		ct = c03AtLookup(string(in.List[0].Bytes))
+	}
 	if ct == nil || ct.class != tlbdesc.ClassDescribed {
 		return nil, sx.L(sx.A("harness-error"), sx.A("unknown-type"))
 	}
@@ -415,6 +418,10 @@ func genC03(c *Ctx) {
 			c03Case(c, "core", ct, c03RandValue(ct, c.R))
 		}
 	}
+	// 2b. every fixed-width integer type at every bit offset mod 8 (and beyond: 0..15 bits
+	//     written before it in the same cell), values with both the top and the lowest bit
+	//     set, boundaries and random ones: the readers' fast paths depend on the offset
+	c03Offsets(c)
 	// 3a. extension layer: snake data and length-prefixed bytes, lengths around the cell
 	//     boundaries (what fits depends on the fields written before)
 	for _, name := range c03Names {
@@ -807,4 +814,130 @@ func c03ExploreOne(c *Ctx, ct *c03Type, pv reflect.Value) {
 		return
 	}
 	c.Note("c03.explore", c03ExploreClass(ct)+"|roundtrip-ok", in)
+}
+
+// ------------------------------------------------------------ integers at every bit offset
+
+var c03GoKinds = map[string]reflect.Type{
+	"go.uint8": reflect.TypeOf(uint8(0)), "go.uint16": reflect.TypeOf(uint16(0)), "go.uint32": reflect.TypeOf(uint32(0)),
+	"go.uint64": reflect.TypeOf(uint64(0)), "go.int8": reflect.TypeOf(int8(0)), "go.int16": reflect.TypeOf(int16(0)),
+	"go.int32": reflect.TypeOf(int32(0)), "go.int64": reflect.TypeOf(int64(0)),
+}
+
+// c03AtLookup resolves "at:<k>:<type>": the struct { P tlb.Uint<k>; V <type> } (k = 0: no P),
+// i.e. <type> encoded after k bits in the same cell.
+func c03AtLookup(name string) *c03Type {
+	var k int
+	var base string
+	if n, _ := fmt.Sscanf(name, "at:%d:%s", &k, &base); n != 2 || k < 0 || k > 15 {
+		return nil
+	}
+	var bt reflect.Type
+	if t, ok := c03GoKinds[base]; ok {
+		bt = t
+	} else if ct := c03Types[base]; ct != nil && ct.class == tlbdesc.ClassDescribed {
+		bt = ct.t
+	} else {
+		return nil
+	}
+	fields := []reflect.StructField{{Name: "V", Type: bt}}
+	if k > 0 {
+		pt := c03Types[fmt.Sprintf("tlb.Uint%d", k)]
+		if pt == nil {
+			return nil
+		}
+		fields = append([]reflect.StructField{{Name: "P", Type: pt.t}}, fields...)
+	}
+	st := reflect.StructOf(fields)
+	d := tlbdesc.Describe(st, "")
+	if d.K == tlbdesc.KOpaque {
+		return nil
+	}
+	ct := &c03Type{name: name, t: st, d: d, class: tlbdesc.ClassDescribed}
+	ct.dsx = ct.descSx().String()
+	c03Types[name] = ct
+	return ct
+}
+
+func c03Offsets(c *Ctx) {
+	var bases []string
+	for _, n := range c03Names {
+		switch c03Types[n].d.K {
+		case tlbdesc.KUint, tlbdesc.KInt, tlbdesc.KBigUint, tlbdesc.KBigInt:
+			if strings.HasPrefix(n, "tlb.") {
+				bases = append(bases, n)
+			}
+		}
+	}
+	for n := range c03GoKinds {
+		bases = append(bases, n)
+	}
+	sort.Strings(bases)
+	one := big.NewInt(1)
+	for _, base := range bases {
+		for k := 0; k < 16; k++ {
+			ct := c03AtLookup(fmt.Sprintf("at:%d:%s", k, base))
+			if ct == nil {
+				continue
+			}
+			vd := ct.d.Sub[len(ct.d.Sub)-1]
+			w := vd.W
+			signed := vd.K == tlbdesc.KInt || vd.K == tlbdesc.KBigInt
+			var vals []*big.Int
+			// all ones (unsigned max / -1), top and lowest bit set, a random odd and a random value
+			if signed {
+				vals = append(vals, big.NewInt(-1), new(big.Int).Add(new(big.Int).Neg(c03Pow2(w-1)), one))
+			} else {
+				vals = append(vals, new(big.Int).Sub(c03Pow2(w), one), new(big.Int).Or(c03Pow2(w-1), one))
+			}
+			if c.Thorough() {
+				for _, b := range c03Boundaries(vd, c.R) {
+					vals = append(vals, b.List[1].Int)
+				}
+			}
+			for i := 0; i < c.Scale(1, 6); i++ {
+				pv := reflect.New(vd.T)
+				v := vd.Rand(c.R, pv.Elem(), 0).List[1].Int
+				if i%2 == 0 && !signed {
+					v = new(big.Int).Or(v, one)
+				}
+				vals = append(vals, v)
+			}
+			for _, v := range vals {
+				var fs []sx.V
+				if k > 0 {
+					pd := ct.d.Sub[0]
+					pp := reflect.New(pd.T)
+					fs = append(fs, pd.Rand(c.R, pp.Elem(), 0))
+				}
+				if signed {
+					fs = append(fs, sx.L(sx.A("z"), sx.BigZ(v)))
+				} else {
+					fs = append(fs, sx.L(sx.A("n"), sx.BigN(v)))
+				}
+				val := sx.L(append([]sx.V{sx.A("struct")}, fs...)...)
+				in := sx.L(sx.Str(ct.name), ct.descSx(), val)
+				kn := "uint"
+				if signed {
+					kn = "int"
+				}
+				wb := "w1-56"
+				switch {
+				case w > 64:
+					wb = "w65+"
+				case w > 58:
+					wb = "w59-64"
+				case w > 56:
+					wb = "w57-58"
+				}
+				out := c.Emit("c03.rt", in, fmt.Sprintf("offset|%s|%s|bit%d", kn, wb, k%8))
+				if out.IsA("err") {
+					continue
+				}
+				if out.K != sx.KL || len(out.List) != 4 || out.List[1].String() != val.String() || !out.List[2].Bool || !out.List[3].Bool {
+					c.Fail("c03.rt", in, "offset-roundtrip", fmt.Sprintf("a %d-bit %s written after %d bits in the same cell does not read back: %s", w, kn, k, trunc(out.String(), 160)))
+				}
+			}
+		}
+	}
 }
